@@ -505,6 +505,12 @@ class CompositeFrontend(ConstrainedFrontend):
         if len(combined_noncommons):
             _, merged_noncommon = combined_noncommons[0].merge(combined_noncommons[1:], merge_conditions)
 
+            # the merge conditions may mention variables of the shared children: those children join the merged one
+            # instead of being displaced by it
+            dependent = merged._solvers_for_variables(merged_noncommon.variables)
+            if dependent:
+                merged_noncommon = merged_noncommon.combine(dependent)
+
             merged._owned_solvers.add(merged_noncommon)
             merged._store_child(merged_noncommon)
 
